@@ -211,6 +211,52 @@ def scenario_launch_failure(remote):
     return {'name': 'launch-failure', 'events': rec.events, 'deadlock': False, 'value': r}
 
 
+def scenario_slow_launch(remote):
+    """a server that needs longer than the client waits: the first call reports the failed launch; the process it launched
+    must not stay behind when the next call launches another one"""
+    import stat
+    import tempfile
+    rec = Recorder()
+    install(rec)
+    t = 'MainThread'
+    d = tempfile.mkdtemp(prefix='c16slow')
+    script = os.path.join(d, 'slowpython')
+    with open(script, 'w') as fd:
+        fd.write('#!/bin/sh\nsleep 7\nexec %s "$@"\n' % sys.executable)
+    os.chmod(script, os.stat(script).st_mode | stat.S_IXUSR)
+    env = remote.Environment(executable=script)
+    rec.ev('CallBegin', t, 1)
+    try:
+        env.eval('return 1')
+    except BaseException as e:  # noqa
+        for pid in list(rec.procs):
+            rec.ev('Connect', t, 0, 'fail', '', pid)
+        rec.ev('CallEnd', t, 1, 'exc', type(e).__name__, 0, str(e)[:200])
+    else:
+        rec.ev('CallEnd', t, 1, 'ok')
+    global EXIT_TIMEOUT
+    saved, EXIT_TIMEOUT = EXIT_TIMEOUT, 4.0
+    reap(rec)
+    EXIT_TIMEOUT = saved
+    env.executable = sys.executable
+    r = op(rec, t, 2, 'Call', lambda: env.eval('return 5'))
+    connected = set(rec.procs)
+    rec.ev('CloseBegin', t, 3)
+    try:
+        env.close()
+        rec.ev('CloseSent', t, 0, '', '', max(connected) if connected else 0)
+        rec.ev('CloseEnd', t, 3, 'ok')
+    except BaseException as e:  # noqa
+        rec.ev('CloseEnd', t, 3, 'exc', type(e).__name__, 0, str(e)[:200])
+    saved, EXIT_TIMEOUT = EXIT_TIMEOUT, 4.0
+    reap(rec)
+    EXIT_TIMEOUT = saved
+    kill_all(rec)
+    import shutil
+    shutil.rmtree(d, ignore_errors=True)
+    return {'name': 'slow-launch', 'events': rec.events, 'deadlock': False, 'value': r}
+
+
 def scenario_concurrent(remote, nthreads=3, with_prepare=True):
     rec = Recorder()
     install(rec)
@@ -260,6 +306,7 @@ SCENARIOS = {
     'disconnect': scenario_disconnect,
     'client-death': scenario_client_death,
     'launch-failure': scenario_launch_failure,
+    'slow-launch': scenario_slow_launch,
     'concurrent': scenario_concurrent,
     'concurrent-noprep': lambda r: scenario_concurrent(r, 3, False),
 }
